@@ -44,12 +44,14 @@ theorem validateSupplement_eq (L : Ledger) (b : Block) :
     validateSupplement L b =
       (if L.child ≥ L.P.v2Require ∧ (b.txns1.length ≠ 0 ∨ b.expiring.length ≠ 0) then
         reject "v1 block supplements are not allowed after v2 hardfork is complete"
+      else if ¬ b.suppLenOk then reject "incorrect number of transactions"
       else do
         forIn b.txns1 PUnit.unit (fun t _ => suppStep L t >>= fun _ => pure (ForInStep.yield PUnit.unit))
         if ¬ b.expiring.all (fun p => L.hasFc1 p.1) then reject "expiring file contract is not present in the accumulator"
         else pure ()) := by
   unfold validateSupplement
   simp only [reject_bind]
+  congr 1
   congr 1
   refine bind_congr' ?_ (fun _ => rfl)
   congr 1; funext t _
@@ -59,6 +61,7 @@ theorem validateSupplement_eq (L : Ledger) (b : Block) :
 /-- every element record of an accepted supplement is an element of the ledger -/
 structure SuppRules (L : Ledger) (b : Block) : Prop where
   era : ¬ (L.child ≥ L.P.v2Require ∧ (b.txns1.length ≠ 0 ∨ b.expiring.length ≠ 0))
+  len : b.suppLenOk = true
   sc : ∀ t ∈ b.txns1, ∀ e ∈ t.supp.scIns, e ∈ L.sc
   sf : ∀ t ∈ b.txns1, ∀ e ∈ t.supp.sfIns, e ∈ L.sf
   revised : ∀ t ∈ b.txns1, ∀ e ∈ t.supp.revised, e ∈ L.fc1
@@ -73,18 +76,20 @@ theorem suppStep_ok_iff (L : Ledger) (t : Txn1) : suppStep L t = .ok () ↔
     Ledger.hasSc, Ledger.hasSf, Ledger.hasFc1, List.contains_iff_mem]
 
 theorem validateSupplement_ok_iff (L : Ledger) (b : Block) : validateSupplement L b = .ok () ↔ SuppRules L b := by
-  rw [validateSupplement_eq, ite_reject_ok_iff, bind_unit_ok_iff, forIn_step_ok_iff, ite_reject_ok_iff]
+  rw [validateSupplement_eq, ite_reject_ok_iff, ite_reject_ok_iff, bind_unit_ok_iff, forIn_step_ok_iff, ite_reject_ok_iff]
   simp only [suppStep_ok_iff, Decidable.not_not, pure_eq_ok, and_true, List.all_eq_true, Ledger.hasFc1,
     List.contains_iff_mem]
   constructor
-  · rintro ⟨h0, h1, h2⟩
-    exact ⟨h0, fun t ht => (h1 t ht).1, fun t ht => (h1 t ht).2.1, fun t ht => (h1 t ht).2.2.1,
+  · rintro ⟨h0, hl, h1, h2⟩
+    exact ⟨h0, hl, fun t ht => (h1 t ht).1, fun t ht => (h1 t ht).2.1, fun t ht => (h1 t ht).2.2.1,
       fun t ht => (h1 t ht).2.2.2, h2⟩
-  · rintro ⟨h0, h1, h2, h3, h4, h5⟩
-    exact ⟨h0, fun t ht => ⟨h1 t ht, h2 t ht, h3 t ht, h4 t ht⟩, h5⟩
+  · rintro ⟨h0, hl, h1, h2, h3, h4, h5⟩
+    exact ⟨h0, hl, fun t ht => ⟨h1 t ht, h2 t ht, h3 t ht, h4 t ht⟩, h5⟩
 
 theorem validateSupplement_noPanic (L : Ledger) (b : Block) : NoPanic (validateSupplement L b) := by
   rw [validateSupplement_eq]
+  split
+  · simp
   split
   · simp
   refine bind_noPanic (forIn_step_noPanic _ (fun t => ?_) _) (fun _ _ => ?_)
